@@ -37,7 +37,8 @@ VARIABLES l, cnt
 vars == <<l, cnt>>
 
 Types == {"sphere", "box", "rbox", "line", "rcone", "rcyl", "plane", "tr", "union", "inter", "sub"}
-Keys == Types \cup {"lines", "in", "out", "surf", "euclid", "pairs", "setops", "mixed", "translate", "scaled", "tiny", "huge"}
+Keys == Types \cup {"lines", "in", "out", "surf", "euclid", "pairs", "setops", "mixed", "translate", "scaled", "tiny", "huge",
+                  "skel", "sksamples", "skon", "sksurf", "skeuclid", "skinexact", "sklerp"}
 
 If(c, name) == IF c THEN {name} ELSE {}
 Count(S) == Cardinality(S)
@@ -111,11 +112,106 @@ Judge(ln) ==
                      ELSE <<>>
          IN CHOOSE r \in {Result(ln, pp, ff, c, o) : pp \in {PPv}, ff \in {FFv}, c \in {clsv}, o \in {oprv}} : TRUE
 
+
+(* ------------------------ skeleton lines (round 5) ------------------------ *)
+(* {"k":"skel","id","den","e2","q","td","via","shape",                       *)
+(*  "smp":[{"part","a","b","tn","o","cl","F","sg","ops":[F,sg,fin,..]},..]}  *)
+(* sample i is the point a + (tn/td)(b-a) + o (Sdf.tla); cl is the CLASS of  *)
+(* the float the closure returned: "fin" | "nan" | "+inf" | "-inf"; F, sg are *)
+(* only read when cl = "fin" and |F| <= SkBound.  Names of rejected           *)
+(* predicates carry the part of the skeleton: "C19.Finite/core".              *)
+(*   C19.Finite     every value of a well-formed shape at a finite point is   *)
+(*                  finite (decided on cl alone)                              *)
+(*   C19.Sign       primitives: exact class of the rational point             *)
+(*   C19.Euclid     sphere, box, capsule, plane (and translated): SkRef       *)
+(*   C19.Lipschitz  primitives: all pairs of samples of the line (exact       *)
+(*                  |p-q|^2 in units of 1/td^2); a finite value beyond        *)
+(*                  SkBound/q lattice units (samples are within 25 units of   *)
+(*                  the surface and f is 0 there)                             *)
+(*   C19.SetOps / C19.Translate   as for lattice lines                        *)
+Classes == {"fin", "nan", "+inf", "-inf"}
+IsVec(v) == Len(v) = 3 /\ \A j \in 1..3 : v[j] \in (0 - 64)..64
+SkFields == {"id", "den", "e2", "q", "td", "via", "shape", "smp"}
+SmpFields == {"part", "a", "b", "tn", "o", "cl", "F", "sg", "ops"}
+NOps(s) == IF s.t = "tr" THEN 1 ELSE IF s.t \in {"union", "inter", "sub"} THEN Len(s.ss) ELSE 0
+SkWellFormed(ln) ==
+    /\ SkFields \subseteq DOMAIN ln
+    /\ "t" \in DOMAIN ln.shape /\ ln.shape.t \in Types /\ Admissible(ln.shape)
+    /\ ln.q \in 1..64 /\ ln.den >= 1 /\ ln.td \in 1..12 /\ ln.e2 \in (0 - 200)..200 /\ ln.via \in {"seg", "lerp"}
+    /\ Len(ln.smp) >= 1
+    /\ \A i \in DOMAIN ln.smp :
+          LET m == ln.smp[i] IN
+          /\ SmpFields \subseteq DOMAIN m
+          /\ m.cl \in Classes /\ m.tn \in 0..ln.td /\ IsVec(m.a) /\ IsVec(m.b) /\ IsVec(m.o)
+          /\ m.sg \in {0 - 1, 0, 1}
+          /\ Len(m.ops) = 3 * NOps(ln.shape)
+
+SkResult(ln, PP, FF, cls, ref, opr) ==
+    LET s == ln.shape
+        q == ln.q
+        td == ln.td
+        I == DOMAIN ln.smp
+        n == Len(ln.smp)
+        M(i) == ln.smp[i]
+        isOp == s.t \in {"union", "inter", "sub"}
+        isTr == s.t = "tr"
+        prim == ~isOp /\ ~isTr
+        fin(i) == M(i).cl = "fin"
+        sane(i) == fin(i) /\ Abs(FF[i]) <= SkBound
+        OF(i, k) == M(i).ops[3 * k - 2]
+        OG(i, k) == M(i).ops[3 * k - 1]
+        OK(i, k) == M(i).ops[3 * k] = 1
+        opsFin(i) == \A k \in 1..NOps(s) : OK(i, k)
+        sgs(i) == [k \in DOMAIN s.ss |-> OG(i, k)]
+        At(i) ==
+            If(~fin(i), "C19.Finite")
+            \cup If(fin(i) /\ ~sane(i), "C19.Lipschitz")
+            \cup If(sane(i) /\ prim /\ ~SignOK(cls[i], FF[i], M(i).sg), "C19.Sign")
+            \cup If(sane(i) /\ prim /\ ~EuclidOK(FF[i], q, ref[i]), "C19.Euclid")
+            \cup If(sane(i) /\ prim /\ \E j \in I : j > i /\ sane(j) /\ ~SkLipOK(FF[i], FF[j], q, td, Len2(VSub(PP[i], PP[j]))), "C19.Lipschitz")
+            \cup If(sane(i) /\ isOp /\ opsFin(i) /\ (\/ ~SetOpOK(s.t, M(i).sg, sgs(i))
+                                                      \/ (opr[i] /\ ~SignOK(cls[i], FF[i], M(i).sg))), "C19.SetOps")
+            \cup If(sane(i) /\ isTr /\ opsFin(i) /\ (\/ Abs(FF[i] - OF(i, 1)) > 1 \/ M(i).sg # OG(i, 1)
+                                                      \/ (opr[i] /\ ~SignOK(cls[i], FF[i], M(i).sg))), "C19.Translate")
+        bad == UNION {{nm \o "/" \o M(i).part : nm \in At(i)} : i \in I}
+        add == [k \in Keys |->
+                 CASE k = "skel" -> 1
+                   [] k = s.t -> 1
+                   [] k = "sksamples" -> n
+                   [] k = "skon" -> Count({i \in I : M(i).o = <<0, 0, 0>>})
+                   [] k = "sksurf" -> Count({i \in I : cls[i] = 0})
+                   [] k = "skeuclid" -> IF prim THEN Count({i \in I : ref[i].kind # "none"}) ELSE 0
+                   [] k = "skinexact" -> IF td \in {1, 2, 4, 8} THEN 0 ELSE n
+                   [] k = "sklerp" -> IF ln.via = "lerp" THEN 1 ELSE 0
+                   [] k = "scaled" -> IF ln.e2 # 0 THEN 1 ELSE 0
+                   [] OTHER -> 0]
+    IN [bad |-> bad, add |-> add]
+
+JudgeSkel(ln) ==
+    IF ~SkWellFormed(ln) THEN [bad |-> {"Harness.Shape"}, add |-> [k \in Keys |-> 0]]
+    ELSE LET s == ln.shape
+             td == ln.td
+             I == DOMAIN ln.smp
+             isOp == s.t \in {"union", "inter", "sub"}
+             isTr == s.t = "tr"
+             P(i) == SkPoint(ln.smp[i], td)
+             OC(i, k) == IF isTr THEN Cls(Scale(s.ss[1], td), VSub(P(i), VScale(td, s.o))) ELSE Cls(Scale(s.ss[k], td), P(i))
+             PPv == [i \in I |-> P(i)] \o <<>>
+             FFv == [i \in I |-> ln.smp[i].F] \o <<>>
+             clsv == [i \in I |-> SkCls(s, ln.smp[i], td)] \o <<>>
+             refv == [i \in I |-> IF isOp THEN NoRef ELSE SkRef(s, ln.smp[i], td)] \o <<>>
+             oprv == IF isOp \/ isTr
+                     THEN [i \in I |-> \A k \in DOMAIN s.ss : OC(i, k) # 0 /\ ln.smp[i].ops[3 * k - 1] = OC(i, k)] \o <<>>
+                     ELSE <<>>
+         IN CHOOSE r \in {SkResult(ln, pp, ff, c, e, o) : pp \in {PPv}, ff \in {FFv}, c \in {clsv}, e \in {refv}, o \in {oprv}} : TRUE
+
+JudgeAny(ln) == IF "k" \in DOMAIN ln /\ ln.k = "skel" THEN JudgeSkel(ln) ELSE Judge(ln)
+
 Init == l = 1 /\ cnt = [k \in Keys |-> 0]
 
 Step ==
     /\ l <= Len(Trace)
-    /\ \E j \in {Judge(Trace[l])} :
+    /\ \E j \in {JudgeAny(Trace[l])} :
           /\ IF j.bad = {} THEN TRUE ELSE PrintT(ToJson([l |-> l, bad |-> j.bad]))
           /\ cnt' = [k \in Keys |-> cnt[k] + j.add[k]]
           /\ IF l = Len(Trace) THEN PrintT(ToJson([stats |-> cnt'])) ELSE TRUE
